@@ -60,12 +60,12 @@ CLAIMED = {
             "C19_rules_immutable, C19_rules_readback. Correspondence: pool of 2 universes x 4 law sets + None, every assignment from both sides to depth 2/3, "
             "random histories; rule attributes read back through the public properties and assignment attempted.",
             "UniverseLaws(applies_to=U) constructed directly is outside the statement.", "DESIGN.md 3/C19"),
-    "C04": ("Lean 4 proof: regenerated 960-row decision table of the real neighbors() re-proved = model = documented rule by kernel evaluation each run; general per-link / order / duality theorems; multi-link correspondence",
+    "C04": ("Lean 4 proof: regenerated 1152-row decision table of the real neighbors() re-proved = model = documented rule by kernel evaluation each run; general per-link / order / duality theorems; multi-link correspondence",
             "C04_impl_eq_model / C04_impl_eq_spec: the real function evaluated on the COMPLETE per-link domain (5 classes x 4 positions x 4 directions x 4 unknown modes x 3 filter outcomes, "
             "regenerated from /repo every run) equals the mirror model and the rule of the statement, by decide +kernel (no axioms). General theorems on the model: C04_link_rule, "
             "C04_order_and_multiplicity, C04_filter_restricts, C04_fwd_bwd_duality. Multi-link composition is tied to the code by the correspondence on structure worlds x all vertices x modes x filter tables.",
             "Rows where the vertex is attached to a link but is neither of its two ends are mirrored, not specified.", "DESIGN.md 3/C04"),
-    "C09": ("Lean 4 proof: regenerated 480-row table of the real find_links() re-proved = model = rule each run; exactness / count theorems; correspondence incl. after-unlink",
+    "C09": ("Lean 4 proof: regenerated 576-row table of the real find_links() re-proved = model = rule each run; exactness / count theorems; correspondence incl. after-unlink",
             "C09_impl_eq_model / C09_impl_eq_spec over the complete per-link domain; C09_link_rule, C09_exact, C09_raises, C09_count (|find_links| = multiplicity in neighbors for FORWARD / ANY), "
             "C09_after_unlink_empty (after unlink(a,b) find_links(a,b) and (b,a) are empty for every direction flag, unknown mode and filter), C09_after_unlink_others (every other pair answers as before). "
             "The oracle re-evaluates the statement on the real code, incl. after-unlink emptiness and non-interference.",
